@@ -150,6 +150,40 @@ long __tsan_atomic64_load(const volatile long *a, int mo)
 { long o; (void)mo; ATOMIC_PROLOGUE("load"); o = *a; if (in_threads && cur >= 0) log_ev("load", at_off(a), o); return o; }
 void __tsan_atomic64_store(volatile long *a, long v, int mo)
 { long o; (void)mo; ATOMIC_PROLOGUE("store"); o = *a; *a = v; if (in_threads && cur >= 0) log_ev("store", at_off(a), o); }
+/* the rest of the atomic entry points, so that a library that synchronises differently (compare-and-swap loops,
+ * flags of another width, fences) still links and is scheduled and observed the same way */
+#define TSAN_RMW(N, T, NAME, KIND, EXPR) \
+T __tsan_atomic##N##_##NAME(volatile T *a, T v, int mo) \
+{ T o; (void)mo; ATOMIC_PROLOGUE(KIND); o = *a; *a = (T)(EXPR); if (in_threads && cur >= 0) log_ev(KIND, at_off(a), (long)o); return o; }
+#define TSAN_CAS(N, T) \
+int __tsan_atomic##N##_compare_exchange_strong(volatile T *a, T *c, T v, int mo, int fmo) \
+{ T o; (void)mo; (void)fmo; ATOMIC_PROLOGUE("cas"); o = *a; if (o == *c) *a = v; if (in_threads && cur >= 0) log_ev("cas", at_off(a), (long)o); if (o == *c) return 1; *c = o; return 0; } \
+int __tsan_atomic##N##_compare_exchange_weak(volatile T *a, T *c, T v, int mo, int fmo) { return __tsan_atomic##N##_compare_exchange_strong(a, c, v, mo, fmo); } \
+T __tsan_atomic##N##_compare_exchange_val(volatile T *a, T c, T v, int mo, int fmo) { T e = c; __tsan_atomic##N##_compare_exchange_strong(a, &e, v, mo, fmo); return e; }
+#define TSAN_LDST(N, T) \
+T __tsan_atomic##N##_load(const volatile T *a, int mo) \
+{ T o; (void)mo; ATOMIC_PROLOGUE("load"); o = *a; if (in_threads && cur >= 0) log_ev("load", at_off(a), (long)o); return o; } \
+void __tsan_atomic##N##_store(volatile T *a, T v, int mo) \
+{ T o; (void)mo; ATOMIC_PROLOGUE("store"); o = *a; *a = v; if (in_threads && cur >= 0) log_ev("store", at_off(a), (long)o); }
+#define TSAN_OPS(N, T) \
+    TSAN_RMW(N, T, fetch_and, "fand", o & v) TSAN_RMW(N, T, fetch_or, "for", o | v) TSAN_RMW(N, T, fetch_xor, "fxor", o ^ v) \
+    TSAN_RMW(N, T, fetch_nand, "fnand", ~(o & v)) TSAN_CAS(N, T)
+TSAN_OPS(8, char) TSAN_OPS(16, short) TSAN_OPS(32, int) TSAN_OPS(64, long)
+TSAN_RMW(8, char, fetch_add, "fadd", o + v) TSAN_RMW(8, char, fetch_sub, "fsub", o - v)
+char __tsan_atomic8_load(const volatile char *a, int mo)
+{ char o; (void)mo; ATOMIC_PROLOGUE("load"); o = *a; if (in_threads && cur >= 0) log_ev("load", at_off(a), (long)o); return o; }
+TSAN_RMW(16, short, fetch_add, "fadd", o + v) TSAN_RMW(16, short, fetch_sub, "fsub", o - v) TSAN_RMW(16, short, exchange, "xchg", v) TSAN_LDST(16, short)
+TSAN_RMW(32, int, fetch_add, "fadd", o + v) TSAN_RMW(32, int, fetch_sub, "fsub", o - v) TSAN_RMW(32, int, exchange, "xchg", v) TSAN_LDST(32, int)
+TSAN_RMW(64, long, exchange, "xchg", v)
+void __tsan_atomic_thread_fence(int mo) { (void)mo; }
+void __tsan_atomic_signal_fence(int mo) { (void)mo; }
+void __tsan_read16(void *a) { plain(a, 0); }
+void __tsan_write16(void *a) { plain(a, 1); }
+void __tsan_unaligned_read2(void *a) { plain(a, 0); } void __tsan_unaligned_write2(void *a) { plain(a, 1); }
+void __tsan_unaligned_read4(void *a) { plain(a, 0); } void __tsan_unaligned_write4(void *a) { plain(a, 1); }
+void __tsan_unaligned_read8(void *a) { plain(a, 0); } void __tsan_unaligned_write8(void *a) { plain(a, 1); }
+void __tsan_read_range(void *a, unsigned long n) { (void)n; plain(a, 0); }
+void __tsan_write_range(void *a, unsigned long n) { (void)n; plain(a, 1); }
 char __tsan_atomic8_exchange(volatile char *a, char v, int mo)
 {
     char o; (void)mo;
